@@ -32,7 +32,10 @@ def cases(draw, cls, max_n=150):
     n = draw(st.one_of(st.integers(1, w + 3), st.integers(w, max_n), st.integers(w, max_n)))
     if draw(st.integers(0, 3)) == 0:
         return _scheduled(draw, cfg, n)
-    return {"cfg": cfg, "stream": draw(gs.streams(n, n, with_ts=False))}
+    case = {"cfg": cfg, "stream": draw(gs.streams(n, n, with_ts=False))}
+    if cls in nm.RETUNE_OK and draw(st.integers(0, 3)) == 0:
+        case["retune_from"] = draw(st.integers(2, 20))  # first built and calculated with this period, then re-tuned
+    return case
 
 
 def _scheduled(draw, cfg, n):
@@ -119,14 +122,24 @@ def run_case(case) -> Result:
         else:
             viol.append(verdicts[0][0])
     elif cls == "OBV":
-        vv = nm.judge_exact("OBV", nm.series(ind), ri.obv(closes, vols))
-        if vv:
-            viol.append(vv)
-        stats["points_compared"] = len(rows)
+        if all(round(v_, r) == v_ for v_ in vols):  # whole lots (or lots on the rounding grid): exact
+            vv = nm.judge_exact("OBV", nm.series(ind), ri.obv(closes, vols))
+            if vv:
+                viol.append(vv)
+            stats["points_compared"] = len(rows)
+        else:  # fractional lots finer than round_value: each stored total carries one rounding
+            labels.append("obv_fractional_lots_finer_than_round_value")
+            J("OBV", nm.series(ind), ri.obv_stored(closes, vols, r))
     elif cls == "VWAP":
         J("VWAP", nm.series(ind), ri.vwap(h, l, c, vol, r))
     for vv in viol:
         vv.subject = cls
+    if not viol and case.get("retune_from") and not case.get("tf") and cls in nm.RETUNE_OK and "period" in kw:
+        labels.append("retuned")
+        vv = nm.retune_violation(cfg, rows, None, case["retune_from"], ind)
+        if vv:
+            vv.subject = cls
+            viol.append(vv)
     return Result(viol, len(rows) >= gc.warmup(cfg) + 5, labels, stats)
 
 
